@@ -21,6 +21,8 @@ fn probes() -> Vec<ProbeDef> {
         ProbeDef { id: "6".into(), lines: vec!["-n".into(), "-e".into(), "-E".into(), "-ne".into(), "-x".into()] },
         // a candidate of two-digit length and a short one that is a proper prefix of it
         ProbeDef { id: "7".into(), lines: vec!["abc".into(), "abcdefghijkl".into(), "other".into()] },
+        // a description that itself contains a tab; a candidate made of two words
+        ProbeDef { id: "8".into(), lines: vec!["alpha\tfirst letter\tGreek".into(), "gamma ray\tdescr".into(), "foo".into(), "bar".into()] },
     ]
 }
 
@@ -73,6 +75,9 @@ pub fn family(tier: Tier, f: &mut dyn FnMut(G)) {
     f(call(E::Seq(vec![p("4"), lit("t")])));
     f(call(E::Seq(vec![E::Word(vec![lit("s="), p("4")]), lit("t")])));
     f(call(E::Alt(vec![p("4"), lit("spx")])));
+    // only the text before the FIRST tab is the candidate; a candidate with a blank is one word
+    f(call(E::Seq(vec![E::Word(vec![lit("--opt="), p("8")]), lit("next")])));
+    f(call(E::Seq(vec![p("8"), lit("next"), lit("end")])));
     // lengths of 3 and 12: the longest candidate must be tried first
     f(call(E::Seq(vec![E::Word(vec![lit("--opt="), p("7")]), lit("t")])));
     f(call(E::Seq(vec![p("7"), lit("t")])));
@@ -114,6 +119,8 @@ pub fn run(tier: Tier) -> Report {
     let mut rejected: BTreeMap<String, u64> = BTreeMap::new();
     let mut outcomes: BTreeSet<u64> = BTreeSet::new();
     let mut samples = Samples::new(10);
+    // words that are pieces or concatenations of candidates (never candidates themselves)
+    crate::traces::EXTRA_WORDS.with(|w| *w.borrow_mut() = vec!["gamma".into(), "ray".into(), "foo bar".into(), "ace".into(), "alpha\tfirst letter".into()]);
     for g in &grammars {
         match run_grammar_opts(g, &defs, &pr, depth, tier.pick(300, 1500), false, lean, true, &scratch) {
             Ok(run) => {
